@@ -48,7 +48,9 @@ def pool():
             P.Instantiate(P.Implies(P.MetaVar(0), P.MetaVar(1)), frozendict({1: P.EVar(0), 0: P.Symbol('a')})),
             P.MetaVar(1, negative=(P.SVar(0),)), P.Mu(0, P.Implies(P.MetaVar(1, negative=(P.SVar(0),)), P.SVar(0))),
             # symbols met in another order than the theory declares them / a symbol the theory does not mention
-            P.App(P.Symbol('b'), P.Symbol('a')), P.App(P.Symbol('z'), P.Symbol('f'))]
+            P.App(P.Symbol('b'), P.Symbol('a')), P.App(P.Symbol('z'), P.Symbol('f')),
+            # pending substitutions whose plug mentions the substituted variable itself
+            P.ESubst(P.MetaVar(1), P.EVar(0), P.App(P.Symbol('f'), P.EVar(0))), P.SSubst(P.MetaVar(1), P.SVar(0), P.App(P.Symbol('f'), P.SVar(0)))]
 
 
 LEMMAS = [('imp_refl', 1), ('bot_elim', 1), ('dneg_intro', 1), ('absurd', 2), ('peirce_bot', 1), ('and_l_imp', 2),
@@ -442,6 +444,17 @@ def main(argv=None) -> int:
         for k in ('inst', 'dinst'):
             l1 += [(k, ('ax', axi), m) for m in (((0, 3),), ((0, 2),), ((1, 2),), ((1, 0),), ((0, 3), (1, 2)), ((1, 5), (0, 2)), ((0, 1),))]
             l1 += [(k, (k, ('ax', axi), ((1, 1),)), ((0, 3),)), (k, (k, ('ax', axi), ((1, 2),)), ((0, 3),))]
+    # generalisation over the variable of a pending substitution whose plug mentions that variable (toolkit and checker must agree)
+    for d in (('prop1',), ('prop2',)):
+        for k in (0, 1):
+            for i in (19, 20, 9):
+                for x in (0, 1):
+                    l1.append(('gen', ('inst', d, ((k, i),)), x))
+                    l1.append(('gen', ('dinst', d, ((k, i),)), x))
+    for i in (19, 20, 9, 10):
+        for x in (0, 1):
+            l1.append(('gen', ('lemma', 'imp_refl', (i,)), x))     # the consequent IS the pending substitution
+            l1.append(('gen', ('inst', ('lemma', 'imp_refl', (0,)), ((0, i),)), x))
     # symbol numbering across the three files: plugs whose symbols are first met in the proof phase in another order
     for d in (('prop1',), ('prop2',), ('ax', 0)):
         for k in ('inst', 'dinst'):
